@@ -1,8 +1,9 @@
 ---------------------------- MODULE MC_Identity ----------------------------
 EXTENDS Identity
-E(k, v) == [k |-> k, v |-> v, sp |-> 0, sub |-> <<>>, al |-> 0]
+E(k, v) == [k |-> k, v |-> v, sp |-> 0, sub |-> <<>>, al |-> 0, str |-> FALSE]
+ES(k, v) == [k |-> k, v |-> v, sp |-> 0, sub |-> <<>>, al |-> 0, str |-> TRUE]      \* a STRING value "k<v>" (e.g. a context key)
 S(k, v) == [k |-> k, v |-> v, sp |-> 0]
-EN(k, sub) == [k |-> k, v |-> 0, sp |-> 0, sub |-> sub, al |-> 0]
+EN(k, sub) == [k |-> k, v |-> 0, sp |-> 0, sub |-> sub, al |-> 0, str |-> FALSE]
 Nd(p, ps) == [proc |-> p, ps |-> ps, flow |-> FALSE, quoted |-> FALSE, alias |-> 0, sweep |-> NoSweep]
 Sw(el, vals, mode, bc, expr) ==
     [proc |-> el, ps |-> <<>>, flow |-> FALSE, quoted |-> FALSE, alias |-> 0,
@@ -24,5 +25,7 @@ Seed7 == << Nd("FloatValueDataSource", <<E("value", 1)>>), SwM, Nd("FloatCollect
 Seed8 == << Nd("FloatValueDataSource", <<E("value", 1)>>),
             Nd("VNestedOperation", <<E("gain", 2), EN("opts", <<S("alpha", 1), S("beta", 2)>>), EN("opts2", <<S("beta", 2), S("alpha", 1)>>)>>) >>
 Seed9 == << Sw("FloatValueDataSource", <<1, 2, 3, 4, 5, 6, 7, 8, 9>>, "combinatorial", FALSE, <<"t">>) >>     \* a long explicit sequence
-AllSeeds == {Seed1, Seed2, Seed3, Seed4, Seed5, Seed6, Seed7, Seed8, Seed9}
+\* a context processor whose output key is bound through a string-valued parameter (context_key)
+Seed10 == << Nd("FloatValueDataSource", <<E("value", 1)>>), Nd("VCtxBump", <<ES("context_key", 1), E("a", 2)>>) >>
+AllSeeds == {Seed1, Seed2, Seed3, Seed4, Seed5, Seed6, Seed7, Seed8, Seed9, Seed10}
 =============================================================================
